@@ -82,8 +82,9 @@ class Target:
     Logs every call; raises `Fault` at the `fault_at`-th likelihood call (0-based) or
     `fault_prior_at`-th prior call when set."""
 
-    def __init__(self, dims, center=1.0, width=0.5, half=10.0, nan_outside=False, peaked=None, like_cut=None):
+    def __init__(self, dims, center=1.0, width=0.5, half=10.0, nan_outside=False, peaked=None, like_cut=None, offset=0.0):
         self.dims, self.center, self.width, self.half = dims, center, width, half
+        self.offset = float(offset)   # constant added to the log-likelihood (an unnormalised likelihood: log L ~ -1e5 or +3e3)
         self.like_cut = like_cut      # log-likelihood is -inf where x[0] < like_cut (zero-weight particles)
         self.nan_outside = nan_outside
         self.calls = []          # ("P"|"L", n_points, prior_attached, prior_matches, xhash)
@@ -105,7 +106,7 @@ class Target:
 
     def like_np(self, x):
         x = self._np(x)
-        v = -0.5 * np.sum((x - self.center) ** 2, axis=-1) / self.width ** 2
+        v = -0.5 * np.sum((x - self.center) ** 2, axis=-1) / self.width ** 2 + self.offset
         if self.nan_outside:
             v = np.where(np.all(np.abs(x) <= self.half, axis=-1), v, np.nan)
         if self.like_cut is not None:
@@ -170,7 +171,7 @@ class RecRng:
 DEFAULT = dict(sampler="minipcn_smc", ns="numpy", width="f64", dims=2, n_samples=24, adaptive=True, n_steps=None,
                min_step=None, max_n_steps=None, target_efficiency=0.5, target_efficiency_rate=1.0,
                n_final_samples=None, kernel_steps=3, seed=1, prop_sigma=2.0, prop_mu=0.0,
-               like_width=0.5, like_center=1.0, half=10.0, precond=None, checkpoint_every=None, like_cut=None)
+               like_width=0.5, like_center=1.0, half=10.0, precond=None, checkpoint_every=None, like_cut=None, like_offset=0.0)
 
 
 def make_sampler(cfg: dict, target: Target, rng=None):
@@ -223,7 +224,8 @@ class Timeout(Exception):
 def run_smc(cfg: dict, fault_at=None, fault_prior_at=None, watchdog_iters=400, **extra):
     """one call of sampler.sample; returns dict(status, samples, sampler, target, rng, exc, ckpts)"""
     cfg = {**DEFAULT, **cfg}
-    target = Target(cfg["dims"], center=cfg["like_center"], width=cfg["like_width"], half=cfg["half"], like_cut=cfg["like_cut"])
+    target = Target(cfg["dims"], center=cfg["like_center"], width=cfg["like_width"], half=cfg["half"], like_cut=cfg["like_cut"],
+                    offset=cfg.get("like_offset", 0.0))
     target.fault_at, target.fault_prior_at = fault_at, fault_prior_at
     target.fault_exc = FaultInterrupt if cfg.get("fault_kind") == "interrupt" else Fault
     rng = RecRng(cfg["seed"])
